@@ -682,7 +682,8 @@ impl<'a> Builder<'a> {
                 label
             }
         };
-        self.emit_to(sub, ".fill x0000".to_string());
+        // (a NOP too: BR with no condition bits, whatever its offset; this spelling marks the slot)
+        self.emit_to(sub, ".fill x0155".to_string());
         let callee: Option<String> = if !sub && !self.conv_stack {
             self.callable.iter().filter(|(_, conv)| !*conv).map(|(l, _)| l.clone()).next()
         } else {
